@@ -639,6 +639,32 @@ class ExprMixin(CallMixin):
             l = PyList(out)
             l.created_in = self._frame_id()
             return l
+        if isinstance(it, PyList) and it.loop_parts:
+            # known items followed by per-iteration parts of earlier loops: the comprehension keeps that structure
+            res = PyList([])
+            res.created_in = self._frame_id()
+            res._loop_depth = len(self.loop_ctx)  # type: ignore[attr-defined]
+            for item in it.items:
+                loc = dict(env)
+                self.assign(g.target, item, loc, module)
+                if all(self.truthy(self.eval(c, loc, module), c) for c in g.ifs):
+                    res.items.append(self.eval(e.elt, loc, module))
+            for over, per in it.loop_parts:
+                kept: List[V] = []
+                self.loop_ctx.append(over)
+                try:
+                    for item in per:
+                        loc = dict(env)
+                        self.assign(g.target, item, loc, module)
+                        if all(self.truthy(self.eval(c, loc, module), c) for c in g.ifs):
+                            mapped = self.eval(e.elt, loc, module)
+                            if not any(repr(mapped) == repr(x) for x in kept):
+                                kept.append(mapped)
+                finally:
+                    self.loop_ctx.pop()
+                if kept:
+                    res.loop_parts.append((over, kept))
+            return res
         if isinstance(it, (ListV, AbsList, MapV)):
             elem = it.elem
         else:
